@@ -38,6 +38,8 @@ package rest
 //	use id=<k>               => ok      Server.Use(middleware u<k>)
 //	start                    => listen | panic:<verdict>     Server.Start() with a port that cannot be opened
 //	cfg must=1                          the server is built by rest.MustNewServer
+//	herr k=<kind>              => returned | panic:same-error | panic:other     handleError(err) with err = nil, ErrServerClosed,
+//	                                    a wrapped ErrServerClosed, registration errors (plain, wrapped), a typed-nil and a zero-valued error
 //	other m=<method> p=<path>  => clean=<…> <outcome>   a second rest.Server (own route GET /other/:o -> h=9999), alive
 //	                                    at the same time as the first, serves the request
 
@@ -156,6 +158,14 @@ func c09SrvBind(r *verifh.Rng) string {
 		return "start"
 	}
 	return "bind"
+}
+
+// c09SrvHerr: every class of error value at handleError (one in eight sections).
+func c09SrvHerr(r *verifh.Rng, ops []string) []string {
+	if r.Chance(1, 8) {
+		ops = append(ops, "herr k="+r.PickS("nil", "closed", "wrapped-closed", "badmethod", "wrapped-badpath", "dup", "typed-nil", "zero"))
+	}
+	return ops
 }
 
 func c09Render(toks []string) string {
@@ -315,7 +325,7 @@ func (g *c09SrvGen) section() verifh.Section {
 		}
 	}
 	ops = c09SrvUses(r, ops, nopts)
-	ops = append(ops, c09SrvBind(r))
+	ops = c09SrvHerr(r, append(ops, c09SrvBind(r)))
 	if r.Chance(1, 40) {
 		ops = append(ops, c09SrvBind(r)) // binding twice registers everything twice
 	}
@@ -555,7 +565,7 @@ func (g *c09SrvGen) sectionAPI() verifh.Section {
 		}
 	}
 	ops = c09SrvUses(r, ops, nopts)
-	ops = append(ops, c09SrvBind(r))
+	ops = c09SrvHerr(r, append(ops, c09SrvBind(r)))
 	tok := func() string { return r.PickS("a", "b", "c", "d", "Ab", "api", "v1") }
 	nreq := r.Range(6, verifh.Scale(18, 30))
 	for i := 0; i < nreq; i++ {
@@ -895,6 +905,30 @@ func TestVerifC09Server(t *testing.T) {
 			case "start":
 				build()
 				return c09SrvStart(srv)
+			case "herr":
+				// handleError, the last step of Server.Start, with every class of error value
+				k, _ := c09SrvArg(op, "k=")
+				var err error
+				switch k {
+				case "nil":
+				case "closed":
+					err = http.ErrServerClosed
+				case "wrapped-closed":
+					err = fmt.Errorf("serve: %w", http.ErrServerClosed)
+				case "badmethod":
+					err = router.ErrInvalidMethod
+				case "wrapped-badpath":
+					err = fmt.Errorf("bind: %w", router.ErrInvalidPath)
+				case "dup":
+					err = fmt.Errorf("duplicated item for %s", "/a")
+				case "typed-nil":
+					err = (*net.OpError)(nil) // a non-nil error value holding a nil pointer
+				case "zero":
+					err = &net.OpError{}
+				default:
+					return "bad-op"
+				}
+				return c09SrvHandleError(err)
 			case "other":
 				// a SECOND rest.Server alive at the same time (own engine, own router, one route of its own,
 				// bound at once): the request is served by it
@@ -1087,6 +1121,20 @@ func c09SrvPanics(f func()) (p bool) {
 	}()
 	f()
 	return false
+}
+
+func c09SrvHandleError(err error) (out string) {
+	defer func() {
+		if v := recover(); v != nil {
+			if e, ok := v.(error); ok && e == err {
+				out = "panic:same-error"
+			} else {
+				out = "panic:other"
+			}
+		}
+	}()
+	handleError(err)
+	return "returned"
 }
 
 func c09SrvVerdict(err error) string {
